@@ -190,6 +190,9 @@ def parseLines : Nat → List String → Scenario → Option Scenario
       let n ← n.toNat?
       let (runs, rest) ← takeRuns n ls
       parseLines fuel rest { sc with defs := sc.defs ++ [{ excl := excl = "1", runs := runs }] }
+    -- `valid 0|1`: empties / fills the match of the scripted systems' `Populated` param. The crate runs its systems
+    -- whatever Bevy's `validate_param` says, so the model ignores the line.
+    | ["valid", _] => parseLines fuel ls sc
     | ["wr", d] => do parseLines fuel ls { sc with wrs := sc.wrs ++ [← d.toNat?] }
     | ["ewr", d] => do parseLines fuel ls { sc with ewrs := sc.ewrs ++ [← d.toNat?] }
     | ["top", "acts", n] => do
